@@ -6,6 +6,46 @@ ROOT = os.path.dirname(os.path.dirname(os.path.abspath(__file__)))
 
 # id -> (category, technique, level text, level note, design ref)
 CHECKS = {
+ "C06": ("exploration",
+         "runtime monitor: identity invariant (ptr::eq against the population's own elements) + documented-error table per configuration + panic capture, through every access path (direct, &S, Select operator, &dyn, Box<dyn>) and 13 weighted nestings with run-time chosen members",
+         "2e5 (quick) / 3e6 (thorough) random populations of size 0..9 (empty, singleton, all-equal, duplicate-laden, uneven result counts) x Best, Worst, Random, Tournament(k=1..n+2), Lexicase(cases 0..m+2, both polarities) x five access paths, plus six random weighted combinations per population with weights incl. 0: Ok must be that very element, Err must be the documented error for that configuration (and must occur where documented), exactly one positive-weight member is used per selection.",
+         "Documented errors are recognised by their type names in the Debug rendering of nested error types.",
+         "DESIGN.md §4 C06"),
+ "C07": ("exploration",
+         "runtime statistical monitor: exact winner law of 'uniform k-subset, return its best' checked with non-asymptotic Bernstein intervals (1e-10 per category), exact per-draw facts, and a subset monitor through a logging Ord that exposes the drawn k-subset itself",
+         "n = 1..7, every k = 1..n, value patterns distinct / ties / all-equal / one-best, 1e6 (quick) / 2e7 (thorough) seeded draws each: value-class frequencies against [C(#<=v,k)-C(#<v,k)]/C(n,k), k=1 uniform over individuals, k=n always a best member, winner never among the k-1 worst, drawn subsets uniform over all C(n,k) subsets and winner maximal in the drawn subset; Best/Worst maximal/minimal on random populations with ties.",
+         "Decided up to the stated resolution (0.35% quick, 0.08% thorough at p=1/2); the acceptance region holds for any correct sampler.",
+         "DESIGN.md §4 C07"),
+ "C08": ("exploration",
+         "runtime statistical monitor: exact lexicase law by enumerating all case permutations; per-draw support and non-domination checks; Bernstein intervals on selection frequencies",
+         "12 hand-built matrices where case order matters + 300 (quick) / 1000 (thorough) random matrices (<=6 individuals x <=5 cases), score and error polarity, configured case counts <= available, 1e6 / 1e7 draws each.",
+         "The law is computed by a 20-line enumerator written from the statement; decided up to the stated resolution.",
+         "DESIGN.md §4 C08"),
+ "C10": ("exploration",
+         "runtime monitor: tagged / complementary parents make the origin of every child gene readable; segment and mask coverage; exhaustive argument sweep of the exchange primitives with panic capture",
+         "TwoPointXo/UniformXo x four genome flavours x lengths {0..8,64}, 5e5 (quick) / 1e7 (thorough) draws each: length, position-wise origin, one contiguous segment, every segment incl. both ends and the empty exchange occurs (len<=6), every uniform mask occurs; all ordered pairs of different lengths on all eight flavours must give DifferentGenomeLength(l1,l2); crossover_gene/crossover_segment for every index/range on genomes of length 0..4 (equal and different lengths): exact swap or error, never a panic, nothing else touched.",
+         "Reversed and empty out-of-bounds ranges are exercised but not judged.",
+         "DESIGN.md §4 C10"),
+ "C11": ("exploration",
+         "runtime monitor: structural invariants on tagged genomes (parent genes carry positions, fresh genes carry serial numbers handed out by a counting generator), exact degenerate-rate cases",
+         "2e6 (quick) / 4e7 (thorough) UMAD mutations through all three constructors on Vector<tagged gene> and Plushy, lengths 0..40, rate grid incl. 0 and 1 and random rates; 5e5 / 1e7 bit-flip mutations (WithRate, WithOneOverLength) on Vec<bool>, Bitstring and a custom Not gene.",
+         "Set membership of serial numbers decides 'drawn from the supplied generator during this call, at most once'.",
+         "DESIGN.md §4 C11"),
+ "C12": ("exploration",
+         "runtime statistical monitor (Bernstein 1e-10 per category; p=0/p=1 exact; Hoeffding for mean child length) over 200 configurations of rates, lengths and generators",
+         "Per-gene flip frequency and adjacent-pair joint frequency for WithRate / WithOneOverLength; UMAD per-position deletion, aggregated additions a(1-d), the full joint law on one-gene parents, empty-parent additions for all three constructors, mean child length incl. d=a/(1+a); uniform crossover 1/2 and pair independence on four flavours; Bitstring::random*, BoolGenerator; GeneGenerator close frequency (explicit and default 1/(n+1), n=1..8) and instruction frequencies (uniform and skewed, direct and via a Plushy collection generator). 2e6 (quick) / 4e7 (thorough) samples per configuration before length scaling.",
+         "A bias below the stated resolution is invisible.",
+         "DESIGN.md §4 C12"),
+ "C13": ("exploration",
+         "runtime monitor with marker selectors: per-selection delegation log (exactly one positive-weight member, result is that member's) + Bernstein intervals on delegation frequencies w_i/sum(w) + exact construction verdicts at the 32-bit boundary",
+         "13 nestings x 27 weight multisets (zeros, all-zero, 2^31 / u32::MAX boundaries, overflowing totals, overflow early in a chain) in several permutations, 1e6 (quick) / 2e7 (thorough) selections each.",
+         "Members are marker selectors; DynWeighted takes usize weights so overflowing 32-bit totals are legal there.",
+         "DESIGN.md §4 C13"),
+ "C14": ("fault_enumeration",
+         "runtime monitor: combinator-algebra reference evaluator vs the real combinators on random composition terms; leaf probes log (id, input, random word); failure injected at every leaf call; error path read through Error::source() and Display",
+         "3e5 (quick) / 5e6 (thorough) random terms to depth 5 over then/and/map(pair|array|vec)/apply_n_times<0..3>/Identity/Constant, each with m leaf calls run m+1 times (failure at each call and none): output, full call log (order, inputs, words), stream fingerprint, failing leaf and error path must match; six statically typed shapes; wrappers Select/Mutate/Recombine (by value/by reference), GenomeExtractor, GenomeScorer, Identity, Constant compared with the wrapped thing.",
+         "Combinator error types are unnameable outside ec-core, so the failing part is read from the documented Display texts; an unrecognised text is inconclusive.",
+         "DESIGN.md §4 C14"),
  "C05": ("exploration",
          "runtime monitor: differential against an independent iterative reference parser plus direct statement checks (depth-first flattening == genome order; k opens followed by exactly k blocks; no block elsewhere; conversion returns)",
          "Every gene string up to length 9 (quick) / 11 (thorough) over {Close, literal(position), When, DupBlock, IfElse} is translated by the real code and compared with the reference parser and the statement's structural rules; random genomes up to length 5000 with skewed symbol mixes (all opens, all closes, trailing opens); nesting depth to 2000 on ordinary threads and 20000 on a 1 GiB thread. Exhaustive within the small scope, sampled beyond.",
